@@ -26,7 +26,8 @@ for c in range(1, 21):
         m = re.search(r"[Nn]eeds[^:\n]*:\s*(.+)", notes)
         demo_cmd = "demo copied to test_suite/tests/seeded_demo_%d.rs; cargo test --offline -p scale-info-test-suite --test seeded_demo_%d" % (n, n)
         if cid == "C19":
-            demo_cmd = "demo placed in <repo>/tests/seeded2_demo_%d.rs; cargo test --offline -p scale-info --features schema,serde,derive --test seeded2_demo_%d" % (n, n)
+            rn = 1 + off // 2
+            demo_cmd = "demo placed in <repo>/tests/seeded%d_demo_%d.rs; cargo test --offline -p scale-info --features schema,serde,derive --test seeded%d_demo_%d" % (rn, n, rn, n)
         meta = {
             "id": sid, "breaks_property": cid, "title": title,
             "needs_to_manifest": (m.group(1).strip()[:400] if m else "see notes.md"),
